@@ -16,7 +16,7 @@ from .common import C, Nat, Opt, Raw, Rec, Str, coq
 
 ID = "C01"
 COQ_FILES = ["C01/Model.v", "C01/Spec.v", "C01/Check.v", "C01/Proofs.v", "C01/Occ.v", "C01/PlanState.v", "C01/PlanEq.v",
-             "C01/Bounds.v", "C01/Iter.v", "C01/Property.v"]
+             "C01/Bounds.v", "C01/Iter.v", "C01/Live.v", "C01/Property.v"]
 COQ_PRELUDE = ("From Coq Require Import ZArith List Bool String.\nImport ListNotations.\n"
                "From KD Require Import C01.Model C01.Spec C01.Check.\nOpen Scope Z_scope.\n")
 COQ_CHECK = "check"
@@ -66,6 +66,11 @@ ASSUMPTIONS = [
     "ModeWrapper.__getattr__ delegation (marker attributes defined and shadowed at random layers), root_dataset / "
     "all_wrappers / has_wrapper(_type) / get_wrappers_of_type / collators / dispose / context manager through the "
     "ModeWrapper are checked by the Python oracle here and modelled in Coq under C02 (AttrModel.AMode)",
+    "stack changed below the wrapper (phases): between two histories the root's number of samples changes and / or a "
+    "KDSubset layer's `indices` is re-assigned (list / ndarray, any length) or edited in place, always leaving every index "
+    "map valid for the layer below; iterators are not carried across a change (a generator started before a resize keeps "
+    "the range it computed -- not claimed either way); for these cases Coq evaluates the LAST phase (current stack, the "
+    "answers of the wrapper built before the changes), the first history is judged by the Python oracle",
     "DataLoader cases: torch's default_collate and the fetcher are trusted to hand over what dataset[i] returns; the "
     "check is that un-collating the batches gives back the samples of plain iteration (which model and spec cover), "
     "with num_workers 0 (quick) and 2 (thorough), and that has/get/set_item address the right column of a real batch "
@@ -94,7 +99,11 @@ RULE = ("random stacks: root of size 0-6 with 2-5 token items (KDDataset or Torc
         "stacks with 1-2 loaders raising at one index after their ctx writes; marker attributes defined at random layers; 7% "
         "(plus 120 directed) with a real DataLoader (batch sizes 1-5, drop_last, over KDSubset / fused wrappers, with/without "
         "ctx) and the static helpers on its batches; directed: whitespace variants of the mode string (double / leading / "
-        "trailing spaces, empty mode).  non-trivial = constructed and at least one sample returned; distinct by (item pattern "
+        "trailing spaces, empty mode); 30% of the cases (plus 17 directed) continue with 1-2 phases 'change the stack below "
+        "the wrapper (root grows / shrinks / empties, a subset layer's indices re-assigned as list / ndarray to the same / a "
+        "longer / a shorter / an empty map or edited in place, layers above repaired), then use the wrapper built BEFORE: len, "
+        "-1, -len, len-1, full slices, lists with negative entries, new iterators, iteration' -- compared with the property on "
+        "the CURRENT stack and with a ModeWrapper built now.  non-trivial = constructed and at least one sample returned; distinct by (item pattern "
         "relative to the groups, layer kinds, rc, index forms)")
 
 POOL = ["x", "class", "semseg", "y", "z"]
@@ -469,8 +478,9 @@ def build_stack(case, st):
     from kappadata.datasets.kd_dataset import KDDataset
     from kappadata.datasets.kd_wrapper import KDWrapper
     from kappadata.datasets.kd_subset import KDSubset
-    size = case["size"]
+    st["size"] = case["size"]          # the root's number of samples lives in st: a root that grows / shrinks later
     root = case["root"]
+    objs = st.setdefault("objs", [])
     if is_torch(case):
         import torch.utils.data
         from kappadata.wrappers.torch_wrapper import TorchWrapper
@@ -478,13 +488,13 @@ def build_stack(case, st):
 
         class PlainTorch(torch.utils.data.Dataset):
             def __len__(self):
-                return size
+                return st["size"]
 
             def __getitem__(self, idx):
                 return tuple(f"{it}@{idx}" for it in titems)
         ds = TorchWrapper(PlainTorch(), mode=" ".join(titems))
     else:
-        ns = {"__len__": lambda self: size}
+        ns = {"__len__": lambda self: st["size"]}
         if root.get("req"):
             ns["requires_propagate_ctx"] = property(lambda self: True)
         for name, writes in root["items"].items():
@@ -493,12 +503,14 @@ def build_stack(case, st):
             ns[a] = 0
         ns["dispose"] = lambda self: st.__setitem__("disposed", st.get("disposed", 0) + 1)
         ds = type("RootDataset", (KDDataset,), ns)()
+    objs.append(ds)
     for k, L in enumerate(case["layers"]):
         level = k + 1
         if L["t"] == "sub":
             ds = KDSubset(ds, list(L["indices"]))
             for a in L.get("attrs", []):
                 setattr(ds, a, level)
+            objs.append(ds)
             continue
         ns = {}
         for name, writes in L["impl"].items():
@@ -515,6 +527,7 @@ def build_stack(case, st):
         for a in L.get("attrs", []):
             ns[a] = property(lambda self, level=level: level)
         ds = type(f"Wrapper{level}", (KDWrapper,), ns)(dataset=ds)
+        objs.append(ds)
     return ds
 
 
@@ -536,11 +549,8 @@ def _idx_of(acc):
     return slice(acc["a"], acc["b"], acc["s"])
 
 
-def run_impl(case):
-    st = {"depth": 0, "log": [], "stamp": stamped(case)}
-    ds = build_stack(case, st)
-    from kappadata.wrappers.mode_wrapper import ModeWrapper
-    obs = {}
+def _observe_stack(case, ds, obs):
+    """what the stack below the ModeWrapper answers right now: len, declared groups, hasattr, every loader directly"""
     names = cand_names(case)
     n = len(ds)
     has = [s for s in names if _safe_hasattr(ds, "getitem_" + s)]
@@ -559,6 +569,156 @@ def run_impl(case):
                 rows.append([{"o": "exc " + type(e).__name__}, []])
         direct[s] = rows
     obs["direct"] = direct
+    return n
+
+
+def _run_hist(mw, hist_steps, st, n, out):
+    """the steps of one history on the ModeWrapper object mw (iterator names start empty), then a full iteration and len;
+    n = current len of the stack (runaway guard of the loops only)"""
+    hist = []
+    live = {}          # iterator objects of this history: id -> what iter(mw) returned
+    for acc in hist_steps:
+        st["log"] = []
+        st["depth"] = 0
+        o = {}
+        try:
+            k = acc["k"]
+            if k == "iter":
+                live[acc["id"]] = iter(mw)
+                o["kind"] = 0
+                o["many"] = False
+                o["res"] = []
+            elif k == "len":
+                o["len"] = len(mw)
+                o["kind"] = 0
+                o["many"] = False
+                o["res"] = []
+            elif k == "next":
+                o["many"] = False
+                o["res"] = []
+                it_ = live.get(acc["id"])
+                if it_ is None:
+                    raise StopIteration     # an id no iterator was created for: like an exhausted one
+                o["res"] = [enc(next(it_))]
+                o["kind"] = 0
+            elif k == "rest":
+                # `for s in it` / list(it) on a possibly partially consumed iterator (calls iter(it) first, as both do);
+                # the samples yielded before an exception are kept
+                o["many"] = True
+                o["res"] = []
+                it_ = live.get(acc["id"])
+                if it_ is not None:
+                    for cnt, smp in enumerate(iter(it_)):
+                        o["res"].append(enc(smp))
+                        if cnt >= n + 2:
+                            break
+                o["kind"] = 0
+            else:
+                r = mw[_idx_of(acc)]
+                o["kind"] = 0
+                o["many"] = isinstance(r, list)
+                o["res"] = [enc(s) for s in r] if isinstance(r, list) else [enc(r)]
+        except StopIteration:
+            o["kind"] = 6
+        except ValueError:
+            o["kind"] = 1
+        except KeyError:
+            o["kind"] = 2
+        except IndexError:
+            o["kind"] = 3
+        except LoaderBoom:
+            o["kind"] = 5
+        except Exception as e:
+            o["kind"] = 9
+            o["exc"] = repr(e)[:200]
+        o["log"] = list(st["log"])
+        hist.append(o)
+    out["hist"] = hist
+    st["log"] = []
+    st["depth"] = 0
+    it = {"kind": 0, "res": []}
+    try:
+        for k, smp in enumerate(iter(mw)):
+            it["res"].append(enc(smp))
+            if k >= n + 2:
+                break
+    except KeyError:
+        it["kind"] = 2
+    except LoaderBoom:
+        it["kind"] = 5
+    except Exception as e:
+        it["kind"] = 9
+        it["exc"] = repr(e)[:200]
+    out["iter"] = it
+    try:
+        out["lenobs"] = len(mw)
+    except Exception as e:
+        out["lenobs"] = repr(e)[:80]
+    return out
+
+
+def _apply_mut_real(st, muts):
+    """the mutation steps on the REAL objects of the stack (st["objs"][level]; level 0 = root)"""
+    for m in muts:
+        if m["op"] == "root":
+            st["size"] = m["size"]
+            continue
+        obj = st["objs"][m["level"]]
+        new = list(m["indices"])
+        if m["op"] == "assign":
+            if m.get("as") == "np":
+                import numpy as np
+                new = np.array(new, dtype=np.int64)
+            elif m.get("as") == "tuple":
+                new = tuple(new)
+            obj.indices = new
+        elif isinstance(obj.indices, list):
+            obj.indices[:] = new            # in-place edit of the container the layer holds (any new length)
+        elif len(obj.indices) == len(new) and hasattr(obj.indices, "dtype"):
+            obj.indices[...] = new          # ndarray: element-wise in place
+        else:
+            obj.indices = new
+
+
+def mutated_case(case, muts):
+    """the declared stack after the mutation steps"""
+    c = dict(case)
+    c["layers"] = [dict(L) for L in case["layers"]]
+    for m in muts:
+        if m["op"] == "root":
+            c["size"] = m["size"]
+        else:
+            c["layers"][m["level"] - 1]["indices"] = list(m["indices"])
+    return c
+
+
+def phase_case(case, k):
+    """the case as it stands in phase k (0-based) after the first history: the stack with all mutations up to and
+    including phase k applied, the phase's history; the per-case probes of phase 0 are not repeated"""
+    c = case
+    for ph in case["phases"][:k + 1]:
+        c = mutated_case(c, ph["mut"])
+    c = dict(c)
+    c["hist"] = case["phases"][k]["hist"]
+    for key in ("phases", "dl", "probe"):
+        c.pop(key, None)
+    c["helpers"] = []
+    c["torch"] = []
+    return c
+
+
+def phase_obs(obs, k):
+    po = dict(obs["phases"][k])
+    po.update(init=0, plan=obs.get("plan", []), prop=obs.get("prop", False), helpers=[], torch=[])
+    return po
+
+
+def run_impl(case):
+    st = {"depth": 0, "log": [], "stamp": stamped(case)}
+    ds = build_stack(case, st)
+    from kappadata.wrappers.mode_wrapper import ModeWrapper
+    obs = {}
+    n = _observe_stack(case, ds, obs)
 
     # static helpers and TorchWrapper probes
     hs = []
@@ -618,82 +778,21 @@ def run_impl(case):
     obs["plan"] = [[nm, (list(ix) if isinstance(ix, list) else int(ix))]
                    for nm, ix in zip(mw.fused_items, mw.fused_to_idxs)]
     obs["prop"] = bool(mw.propagate_ctx)
-    hist = []
-    live = {}          # iterator objects of this history: id -> what iter(mw) returned
-    for acc in case["hist"]:
-        st["log"] = []
-        st["depth"] = 0
-        o = {}
-        try:
-            k = acc["k"]
-            if k == "iter":
-                live[acc["id"]] = iter(mw)
-                o["kind"] = 0
-                o["many"] = False
-                o["res"] = []
-            elif k == "len":
-                o["len"] = len(mw)
-                o["kind"] = 0
-                o["many"] = False
-                o["res"] = []
-            elif k == "next":
-                o["many"] = False
-                o["res"] = []
-                it_ = live.get(acc["id"])
-                if it_ is None:
-                    raise StopIteration     # an id no iterator was created for: like an exhausted one
-                o["res"] = [enc(next(it_))]
-                o["kind"] = 0
-            elif k == "rest":
-                # `for s in it` / list(it) on a possibly partially consumed iterator (calls iter(it) first, as both do);
-                # the samples yielded before an exception are kept
-                o["many"] = True
-                o["res"] = []
-                it_ = live.get(acc["id"])
-                if it_ is not None:
-                    for cnt, smp in enumerate(iter(it_)):
-                        o["res"].append(enc(smp))
-                        if cnt >= n + 2:
-                            break
-                o["kind"] = 0
-            else:
-                r = mw[_idx_of(acc)]
-                o["kind"] = 0
-                o["many"] = isinstance(r, list)
-                o["res"] = [enc(s) for s in r] if isinstance(r, list) else [enc(r)]
-        except StopIteration:
-            o["kind"] = 6
-        except ValueError:
-            o["kind"] = 1
-        except KeyError:
-            o["kind"] = 2
-        except IndexError:
-            o["kind"] = 3
-        except LoaderBoom:
-            o["kind"] = 5
-        except Exception as e:
-            o["kind"] = 9
-            o["exc"] = repr(e)[:200]
-        o["log"] = list(st["log"])
-        hist.append(o)
-    obs["hist"] = hist
-    st["log"] = []
-    st["depth"] = 0
-    it = {"kind": 0, "res": []}
-    try:
-        for k, smp in enumerate(iter(mw)):
-            it["res"].append(enc(smp))
-            if k >= n + 2:
-                break
-    except KeyError:
-        it["kind"] = 2
-    except LoaderBoom:
-        it["kind"] = 5
-    except Exception as e:
-        it["kind"] = 9
-        it["exc"] = repr(e)[:200]
-    obs["iter"] = it
-    obs["lenobs"] = len(mw)
+    _run_hist(mw, case["hist"], st, n, obs)
+    # the stack below the wrapper is a live object: mutate it (root grows / shrinks, a subset layer's indices are
+    # re-assigned or edited in place), then use the OLD wrapper and a wrapper built now
+    phases = []
+    for ph in case.get("phases") or []:
+        _apply_mut_real(st, ph["mut"])
+        po = {}
+        n2 = _observe_stack(case, ds, po)
+        _run_hist(mw, ph["hist"], st, n2, po)
+        fresh = {}
+        _run_hist(ModeWrapper(dataset=ds, mode=case["mode"], return_ctx=case["rc"]), ph["hist"], st, n2, fresh)
+        po["fresh"] = fresh
+        phases.append(po)
+    if phases:
+        obs["phases"] = phases
     obs["deleg"] = _delegation(case, mw, ds, st)
     if case.get("dl"):
         obs["dl"] = _dataloader(case, mw, ModeWrapper)
@@ -978,6 +1077,30 @@ def _helper_oracle(h, o):
 
 
 def oracle(case, obs):
+    msg = _oracle_one(case, obs)
+    if msg or not obs.get("phases"):
+        return msg
+    # the stack is an ARGUMENT of every access: after the stack below the wrapper changed, the wrapper built before the
+    # change answers len / indices / slices / lists / iteration exactly as the property says for the stack as it is now
+    # -- and therefore like a wrapper built now
+    for k, ph in enumerate(case["phases"]):
+        ck, ok = phase_case(case, k), phase_obs(obs, k)
+        pre = f"after the stack below the ModeWrapper was changed ({ph['mut']}; phase {k + 1}), the wrapper built BEFORE: "
+        msg = _oracle_one(ck, ok)
+        if msg:
+            return pre + msg
+        fr = obs["phases"][k]["fresh"]
+        for t, (a, b) in enumerate(zip(ok["hist"], fr["hist"])):
+            if a != b:
+                return (pre + f"access #{t} {ck['hist'][t]} gave {a}, a ModeWrapper built over the same stack now "
+                        f"gives {b}")
+        if ok["iter"] != fr["iter"] or ok["lenobs"] != fr["lenobs"]:
+            return (pre + f"iteration / len gave {ok['iter']} / {ok['lenobs']}, a ModeWrapper built over the same stack "
+                    f"now gives {fr['iter']} / {fr['lenobs']}")
+    return None
+
+
+def _oracle_one(case, obs):
     if "harness_exception" in obs:
         return "the stack / ModeWrapper raised outside the documented exceptions: " + obs["harness_exception"] + \
             obs.get("tb", "")[-600:]
@@ -1361,6 +1484,17 @@ def _samples_ok(lst, nitems, rc):
 def coq_applicable(case, obs):
     if "harness_exception" in obs:
         return False
+    if obs.get("phases"):
+        # rendered: the LAST phase (the stack as it is now, the answers of the wrapper built before the changes);
+        # the first history of such a case is judged by the Python oracle (and by Coq on the cases without phases)
+        k = len(obs["phases"]) - 1
+        return _coq_applicable_one(case, obs) and _coq_applicable_one(phase_case(case, k), phase_obs(obs, k))
+    return _coq_applicable_one(case, obs)
+
+
+def _coq_applicable_one(case, obs):
+    if not isinstance(obs.get("lenobs", 0), int):
+        return False
     if '"' in case["mode"]:
         return False
     # the declared stack is what is rendered: only meaningful when the real stack agrees with it (oracle part 1)
@@ -1380,6 +1514,13 @@ def coq_applicable(case, obs):
 
 
 def coq_case(case, obs):
+    if obs.get("phases"):
+        k = len(obs["phases"]) - 1
+        return _coq_case_one(phase_case(case, k), phase_obs(obs, k))
+    return _coq_case_one(case, obs)
+
+
+def _coq_case_one(case, obs):
     n = outer_len(case)
     lvl = n_levels(case)
     names = cand_names(case)
@@ -1568,6 +1709,54 @@ def gen_torch(rng):
             "item": rng.choice(its) if rng.random() < 0.8 else rng.choice(POOL)}
 
 
+def gen_mut(rng, cur):
+    """one change of the stack below the wrapper: the root grows / shrinks (a replay buffer, a pseudo-label pool), a
+    subset layer's `indices` is re-assigned (list / ndarray; same length with another map, longer, shorter, empty) or
+    edited in place; layers above a shrunk layer are re-assigned so that the stack stays loadable"""
+    muts = []
+    subs = [k + 1 for k, L in enumerate(cur["layers"]) if L["t"] == "sub"]
+    r = rng.random()
+    if not subs or r < 0.45:
+        size = cur["size"]
+        new = max(0, size + rng.choice([1, 1, 2, 3, -1, -1, -2, -size]))
+        muts.append({"op": "root", "size": new if new != size else size + 1})
+    if subs and (r >= 0.45 or rng.random() < 0.3):
+        level = rng.choice(subs)
+        below = level_len(mutated_case(cur, muts), level - 1)
+        old = len(cur["layers"][level - 1]["indices"])
+        m = rng.choice([old, old, old + 1, old + 2, max(old - 1, 0), max(old - 2, 0), 0, rng.randint(0, 6)]) if below > 0 else 0
+        muts.append({"op": rng.choice(["assign", "assign", "inplace"]), "level": level,
+                     "indices": [rng.randrange(below) for _ in range(m)], "as": rng.choice(["list", "list", "np"])})
+    c2 = mutated_case(cur, muts)
+    for level in subs:
+        below = level_len(c2, level - 1)
+        ind = c2["layers"][level - 1]["indices"]
+        if any(i >= below for i in ind):
+            muts.append({"op": "assign", "level": level, "indices": [i for i in ind if i < below], "as": "list"})
+            c2 = mutated_case(cur, muts)
+    return muts
+
+
+def gen_phases(rng, case):
+    """1-2 phases after the first history: change the stack, then use the wrapper that was built before -- always with
+    len, the last / first sample by negative index and a full slice among the accesses (they depend on the CURRENT
+    length), often with new iterators"""
+    phases, cur = [], case
+    for _ in range(rng.choice([1, 1, 1, 2])):
+        muts = gen_mut(rng, cur)
+        cur = mutated_case(cur, muts)
+        n2 = outer_len(cur)
+        hist = [gen_access(rng, n2) for _ in range(rng.randint(0, 3))]
+        extra = [{"k": "len"}, {"k": "slice", "a": None, "b": None, "s": rng.choice([None, None, -1, 2])}]
+        if n2 > 0:
+            extra += [{"k": "int", "i": -1}, {"k": "int", "i": -n2}, {"k": "list", "l": [-1, 0, -n2]}, {"k": "int", "i": n2 - 1}]
+        hist = weave(rng, hist, rng.sample(extra, rng.randint(1, len(extra))))
+        if rng.random() < 0.3:
+            hist = weave(rng, hist, gen_iter_episode(rng, n2))
+        phases.append({"mut": muts, "hist": hist})
+    return phases
+
+
 def gen_case(rng, big=False, dl_p=0.07):
     size = rng.choice([0, 1, 2, 3, 3, 4, 5, 6] + ([8, 11] if big else []))
     torch_root = rng.random() < 0.08
@@ -1715,6 +1904,8 @@ def gen_case(rng, big=False, dl_p=0.07):
                 root["req"] = True
     if n > 0 and not case.get("raises") and rng.random() < dl_p and dl_eligible(case):
         case["dl"] = {"bs": rng.choice([1, 2, 2, 3, 4]), "drop_last": rng.random() < 0.3, "workers": 0}
+    if not case.get("dl") and rng.random() < 0.3:
+        case["phases"] = gen_phases(rng, case)
     return case
 
 
@@ -1834,6 +2025,24 @@ def directed_cases():
     c["raises"] = [[0, "class", 1]]
     out.append(c)
     out.append(_mk(0, root, [], "x", False, eps[0][:6] + eps[3]))
+    # the stack below the wrapper changes between accesses: root grows / shrinks, subset indices re-assigned (same
+    # length / longer / shorter / empty) or edited in place, below a fused wrapper too; several changes in a row
+    ph_hist = [{"k": "len"}, {"k": "int", "i": -1}, {"k": "slice", "a": None, "b": None, "s": None},
+               {"k": "list", "l": [-1, 0]}, I(0), N(0), R(0), {"k": "int", "i": 0}]
+    for md, lay, rc in (("index x ctx.k", [], True), ("x", [], False), ("class x index", [fused_layer([["x", "class"]])], False),
+                        ("x index", [{"t": "sub", "indices": [2, 0, 1]}], False),
+                        ("class x", [{"t": "sub", "indices": [2, 0, 1]}, fused_layer([["x", "class"]])], True)):
+        muts = [[{"op": "root", "size": 5}], [{"op": "root", "size": 2}], [{"op": "root", "size": 3}]]
+        if lay and lay[0]["t"] == "sub":
+            muts = [[{"op": "assign", "level": 1, "indices": [1, 2, 0], "as": "list"}],
+                    [{"op": "assign", "level": 1, "indices": [0, 1, 2, 2, 1], "as": "np"}],
+                    [{"op": "inplace", "level": 1, "indices": [2]}],
+                    [{"op": "root", "size": 6}, {"op": "assign", "level": 1, "indices": [5, 4, 3, 2], "as": "list"}],
+                    [{"op": "inplace", "level": 1, "indices": []}]]
+        for a in range(len(muts)):
+            c = _mk(3, root, lay, md, rc, hist[:2] + [I(0), N(0)])
+            c["phases"] = [{"mut": m, "hist": ph_hist} for m in muts[a:a + 2]]
+            out.append(c)
     # static helpers: "single item" is decided by the mode.  Single-item modes with bare / list / tuple / empty / nested
     # batches (multi-view items) and with another item's name (AssertionError); several-item modes with a bare batch
     # (AssertionError), an absent item (ValueError), a short batch (IndexError for get_item only), list batches,
@@ -1925,6 +2134,15 @@ def features(case, obs):
         yield "has_subset"
     if case.get("raises"):
         yield "raising-loader"
+    cur = case
+    for ph in case.get("phases") or []:
+        yield "stack-changed-below-wrapper"
+        n_a = outer_len(cur)
+        cur = mutated_case(cur, ph["mut"])
+        n_b = outer_len(cur)
+        yield "stack-change:len-" + ("grows" if n_b > n_a else "shrinks" if n_b < n_a else "same")
+        for m in ph["mut"]:
+            yield "stack-change:" + m["op"] + ("-" + m["as"] if m["op"] == "assign" else "")
     if case.get("dl"):
         yield "dataloader:workers=%d" % case["dl"]["workers"]
         if "dl" in obs and "exc" not in obs["dl"]:
@@ -2017,6 +2235,14 @@ def shrink(case):
         yield cp(dl=None)
         if case["dl"]["workers"]:
             yield cp(dl=dict(case["dl"], workers=0))
+    if case.get("phases"):
+        phs = case["phases"]
+        if len(phs) > 1:
+            yield cp(phases=phs[:1])
+            yield cp(phases=[{"mut": phs[0]["mut"] + phs[1]["mut"], "hist": phs[1]["hist"]}])
+        for k, ph in enumerate(phs):
+            for i in range(len(ph["hist"])):
+                yield cp(phases=phs[:k] + [dict(ph, hist=ph["hist"][:i] + ph["hist"][i + 1:])] + phs[k + 1:])
     if case.get("raises"):
         yield cp(raises=[])
         for i in range(len(case["raises"])):
